@@ -16,7 +16,7 @@ theorem Sim.modifyR (names : List String) (f : SRest → SRest) : Sim names (Pro
 theorem Sim.fromNodes (names : List String) (q : Quant) (nodes : List Nat) :
     Sim names (fromNodes q nodes : Prog SRest Val) (fromNodes q nodes) := by
   unfold Strict.fromNodes
-  cases q <;> (try cases nodes) <;> first | exact Sim.pure names _ | exact Sim.panicAt names _
+  cases q <;> (try cases nodes) <;> first | exact Sim.pure names _ | exact Sim.panicAt names _ | exact Sim.throwK names _
 
 theorem Sim.asSyntaxScope (names : List String) (v : Val) : Sim names (asSyntaxScope v) (asSyntaxScope v) := by
   unfold Strict.asSyntaxScope
